@@ -353,12 +353,32 @@ def tplHandle (j : Json) : Except String Json := do
   let t ← (← field j "text").getStr?
   pure (jarr pieceJson (scanTemplate (t.length + 1) t.toList))
 
+/-- The produced text: `outs[i]` is what Python gives for the i-th hole the model's scan finds
+    (characters of `format(value, fmt)` / `str(value)`, `null` = raises); the table keyed by
+    (reference, slice, format) built from it is the parameter `hole` of `solveTemplate`. -/
+def tploHandle (j : Json) : Except String Json := do
+  let t ← (← field j "text").getStr?
+  let outs ← (← getList (← field j "outs")).mapM (fun o =>
+    match o with
+    | .null => pure (none : Option (List Char))
+    | o => do pure (some (← o.getStr?).toList))
+  let keys := (scanTemplate (t.length + 1) t.toList).filterMap (fun p =>
+    match p with
+    | .hole p sl fm => some (p, sl, fm)
+    | _ => none)
+  let tbl := keys.zip outs
+  let hole : HoleFn := fun p sl fm => (tbl.lookup (p, sl, fm)).join
+  pure (match solveTemplate hole t.toList with
+    | some s => Json.mkObj [("out", jstr (String.ofList s))]
+    | none => Json.mkObj [("out", Json.null)])
+
 def handle (j : Json) : Except String Json := do
   let k ← (← field j "k").getStr?
   match k with
   | "num" => numHandle j
   | "log" => logHandle j
   | "tpl" => tplHandle j
+  | "tplo" => tploHandle j
   | _ => throw s!"C18: unknown kind {k}"
 
 end SciVerif.C18.Drive
